@@ -25,6 +25,9 @@ import (
 
 var theT *testing.T
 
+// T returns the *testing.T of Main (for harnesses that open their own bubbles).
+func T() *testing.T { return theT }
+
 // Main runs f with a *testing.T (synctest needs one) in an ordinary binary.
 // f normally ends with evid.Run.Finish(), which exits the process.
 func Main(f func(t *testing.T)) {
